@@ -35,6 +35,7 @@ pub fn replay(v: &serde_json::Value) -> i32 {
 		let choices: Vec<usize> = r["choices"].as_array().map(|a| a.iter().filter_map(|x| x.as_u64().map(|n| n as usize)).collect()).unwrap_or_default();
 		let scen: Vec<Box<dyn crate::sched::DynScenario>> = match prop {
 			"C09" => c09::dyn_scenarios(),
+			"C01" => c01::dyn_scenarios(),
 			"C03" => c03::dyn_scenarios(),
 			"C04" => c04::dyn_scenarios(),
 			"C06" => c06::dyn_scenarios(),
